@@ -40,6 +40,14 @@ def cases(tier, rng):
         text = scheme + (":///tmp/verif-c04-%d.sock" % k if scheme.startswith("unix") else "://127.0.0.1:0")
         line = "c18 server json #%s 1" % text.encode("latin-1").hex()
         cs.append({"line": line, "key": line, "model": False, "tags": {"cert": "good", "ins": 0, "must": 0, "script": "tls-endpoint", "scheme": scheme}})
+    # ... the standard-stream endpoint cannot be probed on the wire: its input and output are pipes here, and the peer speaks the session
+    # handshake in plaintext - a TLS standard-stream endpoint, with or without a certificate, answers none of it
+    for scheme in ("stdio+tls", "stdin+tls"):
+        for scert in ("good", "none"):
+            line = "c04stdio %s %s" % (scert, scheme)
+            cs.append({"line": line, "key": line, "model": False, "tags": {"cert": scert, "ins": 0, "must": 0, "script": "tls-stdio-endpoint", "scheme": scheme}})
+    line = "c04stdio none stdio"
+    cs.append({"line": line, "key": line, "model": False, "tags": {"cert": "none", "ins": 0, "must": 0, "script": "plain-stdio-endpoint", "scheme": "stdio"}})
     # ... and with security required every kind of upstream refuses a server that cannot upgrade, and upgrades with one that can
     # (the cells of C05's matrix that are about C04: run here with the must-secure flag set)
     for carrier, scert in (("plain-socket", "none"), ("plain-ws", "none"), ("plain-kcp", "none"), ("starttls-socket", "good"), ("starttls-ws", "good"), ("starttls-kcp", "good")):
@@ -56,6 +64,15 @@ def cases(tier, rng):
 def oracle(case, impl):
     t = case["tags"]
     p = impl.split()
+    if t["script"] in ("tls-stdio-endpoint", "plain-stdio-endpoint"):
+        if not p or p[0] != "first":
+            return [("crash", "standard-stream endpoint case failed to run: " + impl[:200])]
+        if t["script"] == "plain-stdio-endpoint":
+            # (control: the same peer against the plain endpoint is answered - the probe does reach the server)
+            return [] if p[1] == "plain-200" and p[3] == "plain-101" else [("plain-endpoint-unreachable", "the plain standard-stream endpoint did not answer the handshake: " + impl)]
+        if p[1].startswith("plain-") or p[3].startswith("plain-"):
+            return [("tls-endpoint-speaks-plaintext;scheme=" + t["scheme"], "a %s endpoint (certificate: %s) answered a plaintext handshake in plaintext: %s" % (t["scheme"], t["cert"], impl))]
+        return []
     if t["script"] == "must-secure-udp-secret":
         if not p or p[0] != "connect":
             return [("crash", "scenario did not complete: %s -> %s" % (case["line"], impl[:100]))]
